@@ -232,16 +232,19 @@ func c33Run(in string) string {
 		return "ok " + show(bm) + " " + re + " " + buckets
 	case "bresp":
 		msg := &pb.BlockResponse{}
+		payload := 0 // header and body bytes: the length the allocation budget is measured against
 		if len(f) > 1 {
 			for _, blk := range strings.Split(f[1], ";") {
 				parts := strings.Split(blk, "/")
 				bd := &pb.BlockData{Hash: make([]byte, 32)}
 				if parts[0] != "-" {
 					bd.Header = vu.UnHex(parts[0])
+					payload += len(bd.Header)
 				}
 				if parts[1] != "-" {
 					for _, e := range strings.Split(parts[1], ",") {
 						bd.Body = append(bd.Body, vu.UnHex(e))
+						payload += len(vu.UnHex(e))
 					}
 				}
 				msg.Blocks = append(msg.Blocks, bd)
@@ -252,7 +255,7 @@ func c33Run(in string) string {
 			return "err:marshal"
 		}
 		bm := &BlockResponseMessage{}
-		buckets := vc.Measure(len(data), func() { err = bm.Decode(data) })
+		buckets := vc.Measure(payload, func() { err = bm.Decode(data) })
 		if err != nil {
 			return "err " + buckets
 		}
